@@ -4,6 +4,7 @@ import (
 	"fmt"
 	"go/types"
 	"strings"
+	"unicode/utf8"
 
 	"golang.org/x/tools/go/ssa"
 )
@@ -349,6 +350,8 @@ func (st *State) intrinsic(g *G, fr *Frame, name string, fn *ssa.Function, args 
 			r = And(r, Or(Cmp("<=", b.Len, idx64(i), false), ok))
 		}
 		return r, false
+	case "ValidUTF8":
+		return st.intrinsicValidUTF8(st.strArg(args[0])), false
 	case "StartAccessLog":
 		st.logAccess = true
 		return nil, false
@@ -380,4 +383,47 @@ func fieldByPath(t types.Type, v Val, path string) Val {
 		}
 	}
 	return nil
+}
+
+// intrinsicValidUTF8: exact utf8.ValidString as one term over the byte vector.
+func (st *State) intrinsicValidUTF8(sv *Term) *Term {
+	if sv.Const {
+		return Bool(utf8.ValidString(sv.Str))
+	}
+	if sv.BS == nil {
+		st.fail("unsupported", "ValidUTF8 needs byte-vector strings")
+	}
+	b := sv.BS
+	need := BV(8, 0)
+	lo, hi := BV(8, 0x80), BV(8, 0xbf)
+	ok := True
+	rng := func(x *Term, a, c uint64) *Term {
+		return And(Cmp(">=", x, BV(8, a), false), Cmp("<=", x, BV(8, c), false))
+	}
+	for i, bt := range b.B {
+		in := Cmp("<", idx64(i), b.Len, false)
+		lead := bvEq(need, BV(8, 0))
+		// lead byte classes
+		ascii := Cmp("<", bt, BV(8, 0x80), false)
+		c2 := rng(bt, 0xc2, 0xdf)
+		e0 := bvEq(bt, BV(8, 0xe0))
+		e1 := Or(rng(bt, 0xe1, 0xec), rng(bt, 0xee, 0xef))
+		ed := bvEq(bt, BV(8, 0xed))
+		f0 := bvEq(bt, BV(8, 0xf0))
+		f1 := rng(bt, 0xf1, 0xf3)
+		f4 := bvEq(bt, BV(8, 0xf4))
+		leadOK := Or(Or(Or(ascii, c2), Or(e0, e1)), Or(Or(ed, f0), Or(f1, f4)))
+		contOK := And(Cmp(">=", bt, lo, false), Cmp("<=", bt, hi, false))
+		ok = And(ok, Or(Not(in), Ite(lead, leadOK, contOK)))
+		newNeed := Ite(lead,
+			Ite(ascii, BV(8, 0), Ite(c2, BV(8, 1), Ite(Or(Or(e0, e1), ed), BV(8, 2), BV(8, 3)))),
+			Arith("-", need, BV(8, 1), false))
+		newLo := Ite(lead, Ite(e0, BV(8, 0xa0), Ite(f0, BV(8, 0x90), BV(8, 0x80))), BV(8, 0x80))
+		newHi := Ite(lead, Ite(ed, BV(8, 0x9f), Ite(f4, BV(8, 0x8f), BV(8, 0xbf))), BV(8, 0xbf))
+		need = st.name(Ite(in, newNeed, need), "u8need")
+		lo = st.name(Ite(in, newLo, lo), "u8lo")
+		hi = st.name(Ite(in, newHi, hi), "u8hi")
+		ok = st.name(ok, "u8ok")
+	}
+	return And(ok, bvEq(need, BV(8, 0)))
 }
